@@ -231,12 +231,22 @@ func genText(t *rapid.T, budget int) (string, []string) {
 	for i := 0; i < k; i++ {
 		cls = append(cls, rapid.IntRange(0, len(runClasses)-1).Draw(t, "class"))
 	}
+	// "fine" texts alternate very short runs, so that shifted (two-value) characters misalign the
+	// C40/Text/X12 triplets and EDIFACT quadruplets in every possible way
+	fine := rapid.IntRange(0, 3).Draw(t, "fine") == 0
+	if fine {
+		nruns = rapid.IntRange(2, 14).Draw(t, "nfine")
+	}
 	total := 0
 	for r := 0; r < nruns && total < budget; r++ {
 		ci := cls[rapid.IntRange(0, len(cls)-1).Draw(t, "pick")]
 		rc := runClasses[ci]
 		var l int
-		switch rapid.IntRange(0, 5).Draw(t, "runkind") {
+		rk := rapid.IntRange(0, 5).Draw(t, "runkind")
+		if fine {
+			rk = 0
+		}
+		switch rk {
 		case 0:
 			l = rapid.IntRange(1, 3).Draw(t, "l")
 		case 1, 2, 3:
@@ -261,7 +271,24 @@ func genText(t *rapid.T, budget int) (string, []string) {
 		}
 		total += l
 	}
+	// a tail that differs from the body: end-of-data handling with an odd last character
+	if rapid.IntRange(0, 2).Draw(t, "tail") == 0 {
+		tc := runClasses[rapid.SampledFrom([]int{4, 5, 6, 7, 8, 8, 8, 2, 1}).Draw(t, "tailclass")]
+		rng := hx.NewRng(rapid.Uint64().Draw(t, "tailseed"))
+		for i, n := 0, rapid.IntRange(1, 2).Draw(t, "taillen"); i < n; i++ {
+			if tc.name == "extended" {
+				sb.WriteRune(rune(0x80 + rng.Intn(0x80)))
+			} else {
+				sb.WriteByte(tc.chars[rng.Intn(len(tc.chars))])
+			}
+		}
+		used[tc.name] = true
+		used["odd_tail"] = true
+	}
 	var names []string
+	if used["odd_tail"] {
+		names = append(names, "odd_tail")
+	}
 	for _, rc := range runClasses {
 		if used[rc.name] {
 			names = append(names, "has_"+rc.name)
@@ -444,6 +471,60 @@ func TestCheck(t *testing.T) {
 			}
 		}
 		c.SetExhaustive("all_sizes_pipeline", false)
+
+		// every tail (<= 5 characters, 6 in thorough, over one representative per character class) after
+		// prefixes that put the encoder into each mode at each triplet / quadruplet alignment
+		{
+			alpha := []rune{'1', 'A', 'a', ' ', '\r', '>', '`', 0xD0, 0xE9}
+			prefixes := []string{"qszglpuxge", "qszglpuxgex", "qszglpuxgexy", "QSZGLPUXGE", "QSZGLPUXGEX", "QSZGLPUXGEXY",
+				"AB>CD>EF>GH>", "AB>CD>EF>GH>I", "AB>CD>EF>GH>IJ", "A.B-C/D:E;F,", "A.B-C/D:E;F,G", "A.B-C/D:E;F,GH", "A.B-C/D:E;F,GHI",
+				"\u00e9\u00e8\u00ea\u00eb\u00ec\u00ed", "\u00e9\u00e8\u00ea\u00eb\u00ec\u00edx", "12345678", "123456789", "[)>\x1e05\x1dqszglpuxge"}
+			maxL := c.N(5, 6)
+			var n, nt int64
+			idx := 0
+			stop := false
+			for _, pfx := range prefixes {
+				for L := 0; L <= maxL && !stop; L++ {
+					ix := make([]int, L)
+					for !stop {
+						idx++
+						if c.Mine(idx) {
+							rs := make([]rune, L)
+							for i, k := range ix {
+								rs[i] = alpha[k]
+							}
+							text := pfx + string(rs)
+							if pfx[0] == '[' {
+								text += "\x1e\x04"
+							}
+							cs := Case{Text: text, Path: "codewords"}
+							raw, _ := json.Marshal(cs)
+							if err := hx.Safe(func() error { return check(raw) }); err != nil {
+								stop = !c.Enum("mode_tails_exhaustive", "dm_roundtrip", cs, nil)
+							}
+							n++
+							if L > 0 {
+								nt++
+							}
+						}
+						i := L - 1
+						for i >= 0 {
+							ix[i]++
+							if ix[i] < len(alpha) {
+								break
+							}
+							ix[i] = 0
+							i--
+						}
+						if i < 0 {
+							break
+						}
+					}
+				}
+			}
+			c.NoteBulk("mode_tails_exhaustive", "", n, nt, func() any { return Case{Text: "qszglpuxge1A1A\u00d0", Path: "codewords"} })
+			c.SetExhaustive("mode_tails_exhaustive", true)
+		}
 
 		// refusal side: text outside ISO-8859-1 must be refused
 		c.Rapid("not_latin1_refused", c.N(300, 3000), func(t *rapid.T) {
